@@ -484,6 +484,77 @@ def format_idents_of(fn):
     return res
 
 
+def _subst_ir(ir, env):
+    """`#p` replaced by the tokens (a list of IR nodes) or the other variable name bound to `p`"""
+    out = []
+    for x in ir:
+        if x["t"] == "var" and x["s"] in env:
+            v = env[x["s"]]
+            if isinstance(v, str):
+                out.append(dict(x, s=v))
+            else:
+                out.extend(v)
+        elif x["t"] in ("grp", "rep"):
+            out.append(dict(x, body=_subst_ir(x["body"], env)))
+        else:
+            out.append(x)
+    return out
+
+
+def closure_instances(fn):
+    """[(call node, Template)]: a local closure whose body is one `quote!` (`let method = |doc, name, by| quote! {..}`)
+    is a template with parameters; every call `method(a, b, quote!{ & })` is one instance of it - the parameters
+    replaced by the argument variables / the argument's literal tokens."""
+    out = []
+    if fn.block is None:
+        return out
+    cls = {}
+    for st, _ in A.find(fn.block, "Stmt::Local"):
+        pat = st["pat"]
+        if A.kind(pat) == "Pat::Type":
+            pat = pat["pat"]
+        if A.kind(pat) != "Pat::Ident" or not st.get("init"):
+            continue
+        cl = A.peel(st["init"]["expr"])
+        if A.kind(cl) != "Expr::Closure":
+            continue
+        body = cl["body"]
+        if A.kind(body) == "Expr::Block" and len(body["block"]["stmts"]) == 1:
+            b0 = body["block"]["stmts"][0]
+            body = b0.get("0") if A.kind(b0) == "Stmt::Expr" else (b0 if A.kind(b0) == "Stmt::Macro" else body)
+        mac = body.get("mac") if isinstance(body, dict) and A.kind(body) in ("Expr::Macro", "Stmt::Macro") else None
+        if mac is None or A.path_last(mac["path"]) not in QUOTE_MACROS:
+            continue
+        params = []
+        for p_ in cl["inputs"]:
+            ids = A.pat_idents(p_)
+            params.append(ids[0] if len(ids) == 1 else None)
+        cls[pat["ident"]["sym"]] = (params, mac)
+    if not cls:
+        return out
+    for c, _ in A.find(fn.block, "Expr::Call"):
+        nm = A.path_str(c["func"]) if A.kind(c["func"]) == "Expr::Path" else None
+        if nm not in cls:
+            continue
+        params, mac = cls[nm]
+        if len(params) != len(c["args"]):
+            continue
+        env = {}
+        for pn, a_ in zip(params, c["args"]):
+            if pn is None:
+                continue
+            a_ = A.peel(a_)
+            while A.kind(a_) in ("Expr::Reference", "Expr::Paren", "Expr::Group"):
+                a_ = a_["expr"]
+            if A.kind(a_) == "Expr::Macro" and A.path_last(a_["mac"]["path"]) in QUOTE_MACROS:
+                env[pn] = to_ir(a_["mac"]["tokens"])
+            elif A.kind(a_) == "Expr::Path" and "::" not in (A.path_str(a_) or "::"):
+                env[pn] = A.path_str(a_)
+        t = Template(fn, A.path_last(mac["path"]), mac, _subst_ir(to_ir(mac["tokens"]), env), 1000 + len(out), False)
+        out.append((c, t))
+    return out
+
+
 def templates_both(fn):
     """the templates of a function in every reading: as written, with hoisted sub-templates inlined, and the token
     streams built programmatically - a rule that looks for a template finds it however it is assembled"""
@@ -496,7 +567,7 @@ def templates_both(fn):
         JOINED_MODE[0] = "inline"
     seen = {ir_text(t.ir) for t in plain}
     out = list(plain)
-    for t in comp + comp2:
+    for t in comp + comp2 + [t_ for _, t_ in closure_instances(fn)]:
         tx_ = ir_text(t.ir)
         if tx_ not in seen:
             seen.add(tx_)
